@@ -217,7 +217,7 @@ def run_histories(r, rng, T, make_session, direct, req_cases, on_request=None):
                               "!=": left != right}[o]
                         new = obj[ce]
                     elif kind == "slice":
-                        op = ("slice", slice(rng.choice([None, 0, 1, 2]), rng.choice([None, 1, 3, 9]), rng.choice([None, 1, 2])))
+                        op = ("slice", slice(rng.choice([None, 0, 1, 2]), rng.choice([None, 0, 1, 3, 9]), rng.choice([None, 1, 2])))
                         new = obj[op[1]]
                     else:
                         op = ("int", rng.randint(0, 3))
@@ -240,8 +240,6 @@ def run_histories(r, rng, T, make_session, direct, req_cases, on_request=None):
                     else:
                         got = [[int(x) for x in v] for v in recs]
                 except Exception as e:  # noqa
-                    if not reference(ch2) and any(o[0] in ("slice", "int") for o in ch2):
-                        continue     # an empty composed record range is sent as an inverted hyperslab, which the server refuses
                     direct.append({"law": "an earlier object can still be read", "chain": repr(ch2), "after_steps": step + 1,
                                    "error": repr(e)[:200]})
                     continue
